@@ -150,7 +150,7 @@ def r2(ctx):
            "send_frame can return while part of the frame is still unwritten", loc, {"path": path_text(bad_done)} if bad_done else None)
 
 
-@rule("R-C12-3", min_instances=3, title="read side: recv(), recv_data() and recv_data_frame() each take a frame and feed the reassembler inside one read-lock section; recv_frame holds the frame lock from the first stage test to clear()")
+@rule("R-C12-3", min_instances=6, title="read side: recv(), recv_data() and recv_data_frame() each take a frame and feed the reassembler inside one read-lock section; recv_frame holds the frame lock from the first stage test to clear()")
 def r3(ctx):
     # every public way of receiving a message takes a frame and feeds the reassembler inside ONE read-lock section
     def rf(I, run, args, kwargs, node):
@@ -158,7 +158,8 @@ def r3(ctx):
         return new_obj(run, "_abnf:ABNF", "frame", opcode=isym(run, "op", 0, 15), data=Sym("fd", "bytes"), fin=isym(run, "fin", 0, 1))
 
     stubs = dict(BASE_STUBS)
-    stubs.update({f"{W}.recv_frame": rf, f"{W}.pong": lambda I, run, a, k, n: NONE, f"{W}.send_close": lambda I, run, a, k, n: NONE,
+    stubs.update({f"{W}.recv_frame": rf, f"{W}.pong": lambda I, run, a, k, n: (run.effect("auto.pong", (), node=n), NONE)[1],
+                  f"{W}.send_close": lambda I, run, a, k, n: (run.effect("auto.send_close", (), node=n), NONE)[1],
                   "_abnf:continuous_frame.validate": lambda I, run, a, k, n: (run.effect("cont.validate", (), node=n), NONE)[1],
                   "_abnf:continuous_frame.add": lambda I, run, a, k, n: (run.effect("cont.add", (), node=n), NONE)[1],
                   "_abnf:continuous_frame.is_fire": lambda I, run, a, k, n: Sym("fire", "bool"),
@@ -170,7 +171,7 @@ def r3(ctx):
             return I.call(run, I.getattr(run, ws, entry, None), list(args), {}, None)
 
         outs = ctx.count_paths(I.explore(body))
-        bad = None
+        bad = bad_reply = None
         n = 0
         for o in outs:
             lock = _ws_field(o, "readlock")
@@ -182,12 +183,28 @@ def r3(ctx):
             holders = {next((s_ for s_ in spans if s_[0] < i < s_[1]), None) for i in idxs}
             if None in holders or len(holders) > 1:
                 bad = bad or o
+            # the automatic answer to a control frame (pong, close reply) is written before the read lock is given up: another receiver
+            # must not read further frames -- and answer a later ping -- in between (pongs leave in the order the pings arrived)
+            for i, e in enumerate(o.effects):
+                if e.name in ("auto.pong", "auto.send_close"):
+                    took = max((j for j, e2 in enumerate(o.effects[:i]) if e2.name == "recv_frame"), default=None)
+                    sec = next((s_ for s_ in spans if took is not None and s_[0] < took < s_[1]), None)
+                    if sec is None or not (sec[0] < i < sec[1]):
+                        bad_reply = bad_reply or o
         if n == 0:
             raise AnalysisError(f"{entry}() never takes a frame")
+        ctx.ob(f"{W}.{entry}:automatic-reply-under-readlock", bad_reply is None,
+               "pong / close reply are written inside the read-lock section that took the frame" if bad_reply is None else
+               f"{entry}() gives up the read lock between taking a ping / close frame and writing the answer: a second receiving thread can read on (and answer a later ping) first",
+               ctx.index.loc(ctx.index.func(f"{W}.{entry}").node), {"path": path_text(bad_reply)} if bad_reply else None)
         ctx.ob(f"{W}.{entry}:frame-and-reassembly-under-readlock", bad is None,
                f"{n} paths: recv_frame and the reassembler run inside one `with self.readlock` section" if bad is None else
                f"{entry}() takes a frame / feeds the reassembler without holding the read lock (or across two sections): two receiving threads can split or mix one message",
                ctx.index.loc(ctx.index.func(f"{W}.{entry}").node), {"path": path_text(bad)} if bad else None)
+    frame_lock_scope(ctx)
+
+
+def frame_lock_scope(ctx):
     # frame lock
     Ir = Interp(ctx.index, recv_config())
     Ir.cfg.record_calls = set(Ir.cfg.record_calls) | {"_abnf:frame_buffer.clear", "_abnf:frame_buffer.recv_header"}
